@@ -101,6 +101,9 @@ namespace BitSerializer
 			KeyValueProxy::SplitAndSerialize(archive, std::forward<T>(object));
 			archive.Finalize();
 			context.OnFinishSerialization();
+			if (output.fail()) {
+				throw SerializationException(SerializationErrorCode::InputOutputError, "Failed to write to the output stream");
+			}
 		}
 	}
 
